@@ -451,6 +451,12 @@ def run(ctx, lean):
         for (spec, model, items, container, n, tags, res, rec, tab, draws) in obs:
             reply = parse_reply(lean.ask(request(spec, model, items, container, variant, tab, n, draws)), spec['kind'])
             bad = compare(spec, model, items, n, res, rec, reply)
+            if bad is not None and not tags['wellformed'] and res[0] == 'err':
+                # outside the property's quantifier (empty / unknown key / every column): the call being
+                # refused, with whatever exception, is accepted for every variant
+                bad = None
+                if variant == VARIANTS[0]:
+                    ctx.count('malformed:refused-differently-from-model')
             if bad is not None:
                 first_bad = (bad, describe(spec, items, container, n, tags))
                 break
